@@ -26,6 +26,10 @@ type TypeMethod struct {
 
 	// PkgPath is the package of an unexported method ("" for exported methods)
 	PkgPath string
+
+	// ValueOnly is true for a method that belongs to the method set of T but not
+	// to that of *T (T is an interface type: a pointer to an interface has no methods)
+	ValueOnly bool
 }
 
 // MethodType represents a type in method signature
@@ -160,6 +164,22 @@ func extractMethodsFromNamedType(named *types.Named) []TypeMethod {
 			Outputs:           extractMethodTypesFromTuple(sig.Results(), false),
 			ReceiverIsPointer: recvIsPointer,
 			PkgPath:           unexportedMethodPackage(method),
+		})
+	}
+
+	// A defined interface type: its methods are in the method set of T only
+	for i := 0; i < valueMethodSet.Len(); i++ {
+		method := valueMethodSet.At(i).Obj().(*types.Func)
+		if methodSet.Lookup(method.Pkg(), method.Name()) != nil {
+			continue
+		}
+		sig := method.Type().(*types.Signature)
+		methods = append(methods, TypeMethod{
+			Name:      method.Name(),
+			Inputs:    extractMethodTypesFromTuple(sig.Params(), sig.Variadic()),
+			Outputs:   extractMethodTypesFromTuple(sig.Results(), false),
+			PkgPath:   unexportedMethodPackage(method),
+			ValueOnly: true,
 		})
 	}
 
